@@ -233,8 +233,8 @@ func TestC07(t *testing.T) {
 	})
 	if cfg.Thorough() {
 		small := gen.LeafAlphabet(false)
-		sel := []*gen.Node{small[0], small[4], small[7]}
-		st.Stream("enum-depth3", true, "all trees of operator depth <= 3 over 3 leaves {a, f:b, f:[1 TO 5]} x every non-empty subset of eligible AND nodes (<= 6)")
+		sel := []*gen.Node{small[0], small[4]}
+		st.Stream("enum-depth3", true, "all trees of operator depth <= 3 over 2 leaves {a, f:b}, operators AND OR NOT + - ^ ^2 ~ ~3, x every non-empty subset of eligible AND nodes (<= 6)")
 		gen.EnumTrees(sel, 3, gen.EnumOps{Suffix: true}, cfg.Shard, cfg.NShards, func(n *gen.Node) {
 			perTree("enum-depth3", n, gen.Opts{})
 		})
